@@ -57,6 +57,12 @@ pub struct GenCfg {
     /// prefer texts with astral/combining characters, CRLF, no trailing newline
     #[serde(default)]
     pub unicode_heavy: bool,
+    /// the last document is an `untitled:` buffer
+    #[serde(default)]
+    pub untitled_docs: bool,
+    /// dictionary files exist before the first server start (written by hand or by an earlier version)
+    #[serde(default)]
+    pub preexisting_dicts: bool,
 }
 
 pub fn doc_path(name: &str) -> String {
@@ -84,7 +90,11 @@ pub fn initial_docs(cfg: &GenCfg, rng: &mut Rng) -> Vec<Doc> {
             format!("doc{i}.{ext}")
         };
         let path = doc_path(&name);
-        let uri = uri_of(&path);
+        let mut uri = uri_of(&path);
+        if cfg.untitled_docs && i == cfg.n_docs - 1 && cfg.n_docs > 1 {
+            // a buffer that has never been saved (VS Code's scheme for it)
+            uri = format!("untitled:Untitled-{i}");
+        }
         let _ = rng;
         docs.push(Doc { uri, path, lang, open: false, text: String::new(), version: 0, disk: None, history: vec![], known_to_server: false, last_change_step: 0 });
     }
@@ -229,7 +239,7 @@ impl Generator {
         let ws = [
             if closed_docs.is_empty() { 0 } else { w.open },
             if open_docs.is_empty() { 0 } else { w.change },
-            if open_docs.is_empty() { 0 } else { w.save },
+            if open_docs.iter().any(|d| d.uri.starts_with("file:")) { w.save } else { 0 },
             if open_docs.is_empty() { 0 } else { w.close },
             if c.docs.iter().any(|d| d.disk.is_some()) { w.delete } else { 0 },
             w.config,
@@ -250,11 +260,18 @@ impl Generator {
         let entry = match choice {
             0 => {
                 let d = *rng.pick(&closed_docs);
+                // now and then the editor assigns another language to the same file (an
+                // unsupported id before a supported one, Markdown as plain text, ...)
+                let lang = if rng.chance(1, 8) {
+                    rng.pick(&["plaintext", "markdown", "xml", "latex", "html", "rust", "python"]).to_string()
+                } else {
+                    d.lang.clone()
+                };
                 let (text, pre) = match (&d.disk, rng.chance(1, 2)) {
                     (Some(t), true) => (t.clone(), vec![]),
                     _ => {
-                        let t = corpus::wrap(&d.lang, &corpus::paragraphs(rng), rng);
-                        let pre = if rng.chance(7, 10) { vec![FsAct::Write { path: d.path.clone(), content: t.clone() }] } else { vec![] };
+                        let t = corpus::wrap(&lang, &corpus::paragraphs(rng), rng);
+                        let pre = if rng.chance(7, 10) && d.uri.starts_with("file:") { vec![FsAct::Write { path: d.path.clone(), content: t.clone() }] } else { vec![] };
                         (t, pre)
                     }
                 };
@@ -263,7 +280,7 @@ impl Generator {
                     op: Op::Msg {
                         json: notif(
                             "textDocument/didOpen",
-                            json!({"textDocument":{"uri":d.uri,"languageId":d.lang,"version":d.version + 1,"text":text}}),
+                            json!({"textDocument":{"uri":d.uri,"languageId":lang,"version":d.version + 1,"text":text}}),
                         ),
                         pre,
                         set_settings: None,
@@ -284,7 +301,8 @@ impl Generator {
                 msg(wait, first)
             }
             2 => {
-                let d = *rng.pick(&open_docs);
+                let savable: Vec<&Doc> = open_docs.iter().copied().filter(|d| d.uri.starts_with("file:")).collect();
+                let d = *rng.pick(&savable);
                 ScriptEntry {
                     wait_quiet: wait,
                     op: Op::Msg {
@@ -301,13 +319,23 @@ impl Generator {
             4 => {
                 let cands: Vec<&Doc> = c.docs.iter().filter(|d| d.disk.is_some()).collect();
                 let d = *rng.pick(&cands);
-                ScriptEntry {
-                    wait_quiet: wait,
-                    op: Op::Msg {
-                        json: notif("workspace/didChangeWatchedFiles", json!({"changes":[{"uri":d.uri,"type":3}]})),
-                        pre: vec![FsAct::Delete { path: d.path.clone() }],
-                        set_settings: None,
-                    },
+                if rng.chance(1, 4) {
+                    // the whole directory goes: every document below it is affected
+                    let dir_uri = d.uri.rsplit_once('/').map(|x| x.0.to_string()).unwrap_or_else(|| d.uri.clone());
+                    let pre: Vec<FsAct> = c.docs.iter().filter(|x| x.uri.starts_with(&dir_uri) && x.disk.is_some()).map(|x| FsAct::Delete { path: x.path.clone() }).collect();
+                    ScriptEntry {
+                        wait_quiet: wait,
+                        op: Op::Msg { json: notif("workspace/didChangeWatchedFiles", json!({"changes":[{"uri":dir_uri,"type":3}]})), pre, set_settings: None },
+                    }
+                } else {
+                    ScriptEntry {
+                        wait_quiet: wait,
+                        op: Op::Msg {
+                            json: notif("workspace/didChangeWatchedFiles", json!({"changes":[{"uri":d.uri,"type":1},{"uri":d.uri,"type":3}]})),
+                            pre: vec![FsAct::Delete { path: d.path.clone() }],
+                            set_settings: None,
+                        },
+                    }
                 }
             }
             5 => {
@@ -333,7 +361,7 @@ impl Generator {
             }
             7 | 8 => {
                 let file = ws[8] > 0 && rng.weighted(&ws[7..9]) == 1;
-                let cmd = if file { "HarperAddToFileDict" } else { "HarperAddToUserDict" };
+                let mut cmd = if file { "HarperAddToFileDict" } else { "HarperAddToUserDict" };
                 // a server-provided command, or a generated word on an open document
                 let args = if !spelling_cmds.is_empty() && rng.chance(2, 3) {
                     rng.pick(&spelling_cmds).clone()
@@ -342,6 +370,10 @@ impl Generator {
                     let word = gen_word(rng, self.cfg.word_domain_wide);
                     vec![json!(word), json!(d.uri)]
                 };
+                if args.get(1).and_then(|a| a.as_str()).map(|u| !u.starts_with("file:")).unwrap_or(false) {
+                    // a buffer that was never saved has no file dictionary
+                    cmd = "HarperAddToUserDict";
+                }
                 msg(wait, request(next_id, "workspace/executeCommand", json!({"command":cmd,"arguments":args})))
             }
             9 => {
